@@ -123,6 +123,14 @@ theorem fail_clean_node_parse (root : Conf.Forest) (str limits : Option (List UI
     · rw [if_neg hn] at h
       exact absurd h hn
 
+/-- and for the C++ wrapper `mpt::parser::read` (one context for all reads of a parser object): a failed
+    read leaves the children of the target as they were, whatever the earlier reads left in the context -/
+theorem fail_clean_parser_read (k : Kind) (cfg : Cfg) (curr : Nat) (target : Conf.Forest) (unread : List UInt8)
+    (h : (parserRead k cfg curr target unread).1.code < 0) : (parserRead k cfg curr target unread).2 = target := by
+  unfold parserRead at h ⊢
+  simp only [] at h ⊢
+  rw [if_pos h]
+
 /-- a handler refusal is reported: `mpt_parse_config` returns -0x80 as soon as the handler refuses,
     so nothing is delivered after a refusal -/
 theorem refusal_reported (k : Kind) (cfg : Cfg) (n : Nat) (prev : Nat) (input : List UInt8) :
